@@ -963,6 +963,7 @@ pub fn run(ctx: &RunCtx, flavor: Flavor) -> Report {
     };
 
     let keepalive = flavor == Flavor::C15 && cfg.chance(1, 4);
+    let crowd_at: Option<usize> = if flavor == Flavor::C15 && depth >= 3 && Rng::new(crate::rng::key(ctx.seed, &[crate::rng::tag("c15-crowd")])).chance(1, 40) { Some(1 + (ctx.seed % (depth as u64 - 1)) as usize) } else { None };
     let flood_at: Option<usize> = if flavor == Flavor::C15 && depth >= 3 && cfg.chance(1, 40) { Some(cfg.usize(1, depth - 1)) } else { None };
     let mut keepalives = 0u64;
     for i in 0..depth {
@@ -1021,6 +1022,24 @@ pub fn run(ctx: &RunCtx, flavor: Flavor) -> Report {
             report.probe("guessed_token_floods", 1);
             report.probe("guessed_token_flood_writes", n as u64);
             plan.push(format!("op[{i}] flood of {n} put_immutable with guessed tokens from {}", clients[fc].addr));
+        }
+        // C15, 1 run in 40: a *crowd* - 1100..3300 token-issuing reads from as many distinct source IPs within a
+        // few seconds (a popular node): whatever the node remembers per requester, the tokens honest clients
+        // hold stay good for their five minutes
+        if crowd_at == Some(i) {
+            let n = *r.pick(&[1100usize, 2200, 3300]);
+            for j in 0..n {
+                let src = SocketAddrV4::new(Ipv4Addr::new(20 + (j >> 16) as u8, (j >> 8) as u8, j as u8, 7), 7100);
+                let tid = krpc::tid_bytes(500_000 + j as u32);
+                let cid = r.id();
+                let t = r.id();
+                let bytes = if j % 2 == 0 { krpc::query(&tid, "get_peers", krpc::get_peers_args(&cid, &t), &opts) } else { krpc::query(&tid, "get", krpc::get_args(&cid, &t, None), &opts) };
+                sim.raw_send(src, server_addr, bytes);
+                sim.run_for(MS);
+            }
+            report.probe("requester_crowds", 1);
+            report.probe("requester_crowd_reads", n as u64);
+            plan.push(format!("op[{i}] crowd of {n} get/get_peers from distinct source IPs"));
         }
         let ci = r.usize(0, clients.len() - 1);
         let ci = if enumerated.is_some() { 0 } else { ci };
